@@ -275,54 +275,19 @@ func (sc *scenario) run() {
 	}
 	rng := rand.New(rand.NewSource(sc.seed*7919 + int64(sc.idx)*104729 + 17))
 	sc.rec.Schedule, sc.rec.Seed = sc.sched.key(), sc.seed
-	pa, err1 := resd.FreePort()
-	pc, err2 := resd.FreePort()
-	if err1 != nil || err2 != nil || pa == pc {
-		sc.fail(fmt.Sprintf("no free ports: %v %v", err1, err2))
-
-		return
-	}
-	var err error
-	if sc.ra, err = resd.NewRelay("ra", fmt.Sprintf("127.0.0.1:%d", pa)); err != nil {
-		sc.fail(err.Error())
-
-		return
-	}
-	defer sc.ra.Close()
-	if sc.rc, err = resd.NewRelay("rc", fmt.Sprintf("127.0.0.1:%d", pc)); err != nil {
-		sc.fail(err.Error())
-
-		return
-	}
-	defer sc.rc.Close()
-	mk := func(name string, c resd.NodeCfg) *resd.Daemon {
-		d, e := resd.NewDaemon(sc.bin, sc.root, name, c)
-		if e != nil && err == nil {
-			err = e
+	// set-up (ports, relays, three daemons); a failed start (port taken in the meantime, ...) is retried on fresh ports
+	var setupErr error
+	for attempt := 0; attempt < 3; attempt++ {
+		if setupErr = sc.setup(attempt); setupErr == nil {
+			break
 		}
-
-		return d
+		sc.teardown()
 	}
-	sc.a = mk("a", resd.NodeCfg{ListenPort: pa})
-	sc.c = mk("c", resd.NodeCfg{ListenPort: pc, WorkTypes: []string{"sh"}})
-	sc.b = mk("b", resd.NodeCfg{Peers: []string{sc.ra.Addr(), sc.rc.Addr()}})
-	if err != nil {
-		sc.fail(err.Error())
+	defer sc.teardown()
+	if setupErr != nil {
+		sc.fail("set-up failed three times: " + setupErr.Error())
 
 		return
-	}
-	defer func() {
-		sc.a.Kill()
-		sc.b.Kill()
-		sc.c.Kill()
-		resd.ReapAll(sc.root, sc.bin)
-	}()
-	for _, d := range []*resd.Daemon{sc.a, sc.c, sc.b} {
-		if err := d.Start(60 * time.Second); err != nil {
-			sc.fail(err.Error())
-
-			return
-		}
 	}
 	if !sc.waitRoute(90 * time.Second) {
 		sc.fail("node a never learned a route to c; a.log: " + resd.Tail(sc.a.LogFile, 600))
@@ -583,8 +548,9 @@ func (sc *scenario) run() {
 
 			break
 		}
-		// stall: the remote unit is finished, nothing has arrived for 90 s although a reaches c all the time
-		if rerr == nil && terminal(rst.State) && time.Since(lastRepair) > 100*time.Second &&
+		// stall: the remote unit is finished and the local record says so, yet nothing has arrived for 90 s although a
+		// reaches c all the time
+		if rerr == nil && terminal(rst.State) && lerr == nil && terminal(lst.State) && time.Since(lastRepair) > 100*time.Second &&
 			time.Since(time.Unix(0, sc.lastGrowth.Load())) > 90*time.Second {
 			if sc.ping() {
 				if pingOKAt.IsZero() {
@@ -668,6 +634,56 @@ func (sc *scenario) run() {
 	default:
 		res.count("scenarios_ok", 1)
 	}
+}
+
+func (sc *scenario) setup(attempt int) error {
+	pa, err1 := resd.FreePort()
+	pc, err2 := resd.FreePort()
+	if err1 != nil || err2 != nil || pa == pc {
+		return fmt.Errorf("no free ports: %v %v", err1, err2)
+	}
+	var err error
+	if sc.ra, err = resd.NewRelay("ra", fmt.Sprintf("127.0.0.1:%d", pa)); err != nil {
+		return err
+	}
+	if sc.rc, err = resd.NewRelay("rc", fmt.Sprintf("127.0.0.1:%d", pc)); err != nil {
+		return err
+	}
+	if attempt > 0 {
+		for _, n := range []string{"a", "b", "c"} {
+			_ = os.RemoveAll(filepath.Join(sc.root, n+".data"))
+		}
+	}
+	if sc.a, err = resd.NewDaemon(sc.bin, sc.root, "a", resd.NodeCfg{ListenPort: pa}); err != nil {
+		return err
+	}
+	if sc.c, err = resd.NewDaemon(sc.bin, sc.root, "c", resd.NodeCfg{ListenPort: pc, WorkTypes: []string{"sh"}}); err != nil {
+		return err
+	}
+	if sc.b, err = resd.NewDaemon(sc.bin, sc.root, "b", resd.NodeCfg{Peers: []string{sc.ra.Addr(), sc.rc.Addr()}}); err != nil {
+		return err
+	}
+	for _, d := range []*resd.Daemon{sc.a, sc.c, sc.b} {
+		if err := d.Start(60 * time.Second); err != nil {
+			return fmt.Errorf("%v; log: %s", err, resd.Tail(d.LogFile, 400))
+		}
+	}
+
+	return nil
+}
+
+func (sc *scenario) teardown() {
+	for _, d := range []*resd.Daemon{sc.a, sc.b, sc.c} {
+		if d != nil {
+			d.Kill()
+		}
+	}
+	for _, r := range []*resd.Relay{sc.ra, sc.rc} {
+		if r != nil {
+			r.Close()
+		}
+	}
+	resd.ReapAll(sc.root, sc.bin)
 }
 
 // waitRoute waits until a's routing table knows c.
